@@ -680,6 +680,11 @@ func (server *Server) registerCoreExecutors() {
 		if opt.BYSCORE {
 			opt.MINEXCLUSIVE = startEx
 			opt.MAXEXCLUSIVE = stopEx
+			if opt.REV {
+				// With REV the score range is given as max min.
+				start, stop = stop, start
+				opt.MINEXCLUSIVE, opt.MAXEXCLUSIVE = stopEx, startEx
+			}
 			return server.userCommandHandler.ZRangeByScore(conn, key, start, stop, opt)
 		}
 
